@@ -1,6 +1,7 @@
 import KvarnModel.Drv.Util
 import KvarnModel.Cache
 import KvarnModel.CacheVary
+import KvarnModel.UriKey
 namespace Drv.C03
 open Wire Drv Cache CacheV
 
@@ -108,5 +109,15 @@ def handle' : List String → Option String
     let cfg : Cfg := { cacheEnabled := ← parseBool ce, filter := if (← parseBool pf) then fun _ => true else defaultFilter }
     let outs ← runEvents cfg {} (← parseList evs) []
     pure (listStr outs)
+  -- key <path hex> <query hex | none> <path hex> <query hex | none> : the cache keys of two URIs — equal?, and the first one's accessors
+  | ["key", p1, q1, p2, q2] => do
+    let opt := fun (x : String) => if x = "none" then some (none : Option Bytes) else (bytesOfHex x).map some
+    let k1 := UriKey.ofUri (← bytesOfHex p1) (← opt q1)
+    let k2 := UriKey.ofUri (← bytesOfHex p2) (← opt q2)
+    let showO := fun (o : Option (Option Bytes)) => match o with
+      | none => "panic"
+      | some none => "none"
+      | some (some x) => hexOfBytes x
+    pure s!"eq={boolStr (decide (k1 = k2))} p={(UriKey.path k1).map hexOfBytes |>.getD "panic"} q={showO (UriKey.query k1)} into={hexOfBytes (UriKey.intoPath k1)}"
   | _ => none
 end Drv.C03
